@@ -517,6 +517,8 @@ class AIOKafkaConsumer:
             await self._coordinator.close()
         if self._fetcher:
             await self._fetcher.close()
+        # Release the callers, that still wait for an assignment
+        self._subscription.abort_waiters(ConsumerStoppedError())
         await self._client.close()
         log.debug("The KafkaConsumer has closed.")
 
